@@ -45,8 +45,15 @@ def evaluate(chk, cases, results, workdir):
     violations, known, mismatches = [], [], []
     distinct = set()
     for prof, (exp, act) in results.items():
-        spec = chk.spec_phase(cases, act, workdir, prof) if hasattr(chk, 'spec_phase') else [None] * len(cases)
-        ctx = chk.context(cases, act) if hasattr(chk, 'context') else None
+        try:
+            spec = chk.spec_phase(cases, act, workdir, prof) if hasattr(chk, 'spec_phase') else [None] * len(cases)
+            ctx = chk.context(cases, act) if hasattr(chk, 'context') else None
+        except Broken:
+            raise
+        except Exception as ex:
+            violations.append(dict(case=cases[0] if cases else '', profile=prof, impl='', model='',
+                                   reason='the implementation\'s output could not be interpreted (%s: %s)' % (type(ex).__name__, ex)))
+            continue
         for i, (c, e, a) in enumerate(zip(cases, exp, act)):
             an = lib.normalize(a)
             en = lib.normalize(e)
@@ -55,13 +62,21 @@ def evaluate(chk, cases, results, workdir):
                 continue
             if an == 'BADCASE' and en == 'BADCASE':
                 raise Broken('generator produced a case neither side can build: ' + c[:200])
-            verdict = chk.judge(c, an, spec[i], ctx, i)
+            try:
+                verdict = chk.judge(c, an, spec[i], ctx, i)
+            except Broken:
+                raise
+            except Exception as ex:      # output of an unexpected shape (only possible on a changed tree)
+                verdict = 'the implementation\'s output has an unexpected shape (%s: %s): %s' % (type(ex).__name__, ex, an[:200])
             if verdict is not None:
                 if isinstance(verdict, tuple) and verdict[0] == 'KF':
                     known.append((verdict[1], verdict[2], c))
                 else:
                     violations.append(dict(case=c, profile=prof, impl=a, model=e, reason=verdict))
-            pe, pa = chk.project(c, en), chk.project(c, an)
+            try:
+                pe, pa = chk.project(c, en), chk.project(c, an)
+            except Exception as ex:
+                pe, pa = 'model', 'unprojectable: %s' % ex
             if pe != pa:
                 mismatches.append(dict(case=c, profile=prof, impl=a, model=e,
                                        reason='model and implementation differ under the projection of %s' % chk.id))
